@@ -289,10 +289,11 @@ EXPECT_REG_BLOCK = """if BASE_CURRENCY is not None:
         if not c.dollar_rate > 0:
             continue
         mul = base.dollar_rate / c.dollar_rate
-        if c.name in NAME_TO_UNIT and c.symbol in SYMBOL_TO_UNIT:
+        cname = typable_name(c.name, c.symbol)
+        if cname in NAME_TO_UNIT and c.symbol in SYMBOL_TO_UNIT:
             continue
-        name = c.symbol if c.name in NAME_TO_UNIT else c.name
-        sym = c.name if c.symbol in SYMBOL_TO_UNIT else c.symbol
+        name = c.symbol if cname in NAME_TO_UNIT else cname
+        sym = cname if c.symbol in SYMBOL_TO_UNIT else c.symbol
         if sym in SPECIAL_NAMES:
             name = SPECIAL_NAMES[sym]
         if name in NAME_TO_UNIT or name + 's' in NAME_TO_UNIT or sym in SYMBOL_TO_UNIT:
@@ -303,6 +304,10 @@ EXPECT_REG_BLOCK = """if BASE_CURRENCY is not None:
             if special_sym in NAME_TO_UNIT or special_sym + 's' in NAME_TO_UNIT or special_sym in SYMBOL_TO_UNIT:
                 continue
             register_unit(special_sym, special_sym, 'cash', CASH, multiple=mul)"""
+EXPECT_TYPABLE = """def typable_name(name, fallback):
+    decomposed = unicodedata.normalize('NFKD', name)
+    cleaned = ''.join((ch for ch in decomposed if ch.isascii() and (ch.isalnum() or ch == '_')))
+    return cleaned if cleaned and cleaned[0].isalpha() else fallback"""
 EXPECT_WRITER = """def scrape_and_store_rates_to(path):
     currencies = scrape_exchange_rates()
     with open(path, 'w') as f:
@@ -334,6 +339,13 @@ def gen_currencydata():
         import difflib
         d = "\n".join(difflib.unified_diff(EXPECT_REG_BLOCK.split("\n"), got.split("\n"), "model", "code", lineterm=""))
         raise Exception("units.py: the currency registration loop changed; the model no longer follows it:\n" + d)
+    # typable_name (the model's `typableName`), docstring dropped
+    tn = _function(tree, "typable_name")
+    if tn.body and isinstance(tn.body[0], ast.Expr) and isinstance(getattr(tn.body[0], "value", None), ast.Constant):
+        tn.body = tn.body[1:]
+    if ast.unparse(tn) != EXPECT_TYPABLE:
+        raise Exception("units.py: typable_name changed; the model's `typableName` follows\n%s\ncode:\n%s"
+                        % (EXPECT_TYPABLE, ast.unparse(tn)))
     # register_unit's own assertions (the model's `registerUnit`)
     ru = _function(tree, "register_unit")
     asserts = [ast.unparse(n.test) for n in ast.walk(ru) if isinstance(n, ast.Assert)]
